@@ -80,6 +80,9 @@ impl<'tcx> Cx<'tcx> {
         let s = with_no_trimmed_paths!(with_crate_prefix!(self.tcx.def_path_str_with_args(did, args)));
         self.fix(s)
     }
+    fn dh(&self, did: DefId) -> String {
+        format!("{:?}", self.tcx.def_path_hash(did).0)
+    }
     fn ty_str(&self, t: Ty<'tcx>) -> String {
         let s = with_no_trimmed_paths!(with_crate_prefix!(format!("{}", t)));
         self.fix(s)
@@ -296,7 +299,7 @@ impl<'tcx> Cx<'tcx> {
         let _ = write!(o, "{{\"ty\":{}", js(&self.ty_str(t)));
         match t.kind() {
             ty::FnDef(did, args) => {
-                let _ = write!(o, ",\"fn\":{},\"fna\":{}", js(&self.path(*did)), js(&self.path_args(*did, args)));
+                let _ = write!(o, ",\"fn\":{},\"fnh\":{},\"fna\":{}", js(&self.path(*did)), js(&self.dh(*did)), js(&self.path_args(*did, args)));
             }
             _ => {
                 let env = TypingEnv::post_analysis(self.tcx, body_did);
@@ -359,6 +362,7 @@ impl<'tcx> Cx<'tcx> {
                 if let Const::Unevaluated(u, _) = c.const_ {
                     if u.promoted.is_none() {
                         let _ = write!(o, ",\"name\":{}", js(&self.path(u.def)));
+                        let _ = write!(o, ",\"nameh\":{}", js(&self.dh(u.def)));
                     } else {
                         o.push_str(",\"promoted\":true");
                     }
@@ -482,8 +486,9 @@ impl<'tcx> Cx<'tcx> {
                         fns.push(']');
                         let _ = write!(
                             o,
-                            "{{\"k\":\"agg\",\"ak\":\"adt\",\"adt\":{},\"variant\":{},\"vi\":{},\"fields\":{},\"ops\":{}}}",
+                            "{{\"k\":\"agg\",\"ak\":\"adt\",\"adt\":{},\"adth\":{},\"variant\":{},\"vi\":{},\"fields\":{},\"ops\":{}}}",
                             js(&self.path(*adid)),
+                            js(&self.dh(*adid)),
                             js(v.name.as_str()),
                             vidx.as_usize(),
                             fns,
@@ -493,8 +498,9 @@ impl<'tcx> Cx<'tcx> {
                     AggregateKind::Closure(cdid, _) => {
                         let _ = write!(
                             o,
-                            "{{\"k\":\"agg\",\"ak\":\"closure\",\"def\":{},\"ops\":{}}}",
+                            "{{\"k\":\"agg\",\"ak\":\"closure\",\"def\":{},\"defh\":{},\"ops\":{}}}",
                             js(&self.path(*cdid)),
+                            js(&self.dh(*cdid)),
                             os
                         );
                     }
@@ -530,6 +536,7 @@ impl<'tcx> Cx<'tcx> {
         };
         let mut o = String::with_capacity(4096);
         let _ = write!(o, "{{\"id\":{}", js(&self.path(did)));
+        let _ = write!(o, ",\"h\":{}", js(&self.dh(did)));
         let _ = write!(o, ",\"kind\":{}", js(&format!("{:?}", kind)));
         if matches!(kind, DefKind::Fn | DefKind::AssocFn) {
             let vis = tcx.visibility(did);
@@ -722,6 +729,7 @@ impl<'tcx> Cx<'tcx> {
                     match fty.kind() {
                         ty::FnDef(cdid, cargs) => {
                             let _ = write!(t, ",\"f\":{}", js(&self.path(*cdid)));
+                            let _ = write!(t, ",\"fh\":{}", js(&self.dh(*cdid)));
                             let _ = write!(t, ",\"fa\":{}", js(&self.path_args(*cdid, cargs)));
                             // resolve
                             let env = TypingEnv::post_analysis(tcx, did);
@@ -730,6 +738,7 @@ impl<'tcx> Cx<'tcx> {
                                 Ok(Some(inst)) => {
                                     let rd = inst.def_id();
                                     let _ = write!(t, ",\"rf\":{}", js(&self.path(rd)));
+                                    let _ = write!(t, ",\"rfh\":{}", js(&self.dh(rd)));
                                     let kindn = match inst.def {
                                         ty::InstanceKind::Item(_) => "item",
                                         ty::InstanceKind::Virtual(..) => "virtual",
@@ -749,6 +758,7 @@ impl<'tcx> Cx<'tcx> {
                             // trait of callee, if any
                             if let Some(tr) = tcx.trait_of_assoc(*cdid) {
                                 let _ = write!(t, ",\"tr\":{}", js(&self.path(tr)));
+                                let _ = write!(t, ",\"trh\":{}", js(&self.dh(tr)));
                             }
                             // type args
                             t.push_str(",\"targs\":[");
@@ -950,8 +960,9 @@ impl Callbacks for Cb {
                     }
                     let _ = write!(
                         o,
-                        "{{\"p\":{},\"kind\":{},\"repr_c\":{},\"repr_packed\":{},\"repr_transparent\":{},\"size\":{},\"align\":{},\"file\":{},\"ln\":{},\"variants\":[",
+                        "{{\"p\":{},\"h\":{},\"kind\":{},\"repr_c\":{},\"repr_packed\":{},\"repr_transparent\":{},\"size\":{},\"align\":{},\"file\":{},\"ln\":{},\"variants\":[",
                         js(&cx.path(did)),
+                        js(&cx.dh(did)),
                         js(&format!("{:?}", kind)),
                         def.repr().c(),
                         def.repr().packed(),
@@ -1000,19 +1011,20 @@ impl Callbacks for Cb {
                         impls.push(',');
                     }
                     let st = tcx.type_of(did).instantiate_identity().skip_norm_wip();
-                    let (tr, uns) = if of_trait {
+                    let (tr, uns, trh) = if of_trait {
                         let trf = tcx.impl_trait_ref(did).instantiate_identity().skip_norm_wip();
                         let hdr = tcx.impl_trait_header(did);
-                        (cx.path(trf.def_id), !hdr.safety.is_safe())
+                        (cx.path(trf.def_id), !hdr.safety.is_safe(), cx.dh(trf.def_id))
                     } else {
-                        (String::new(), false)
+                        (String::new(), false, String::new())
                     };
                     let sp = tcx.def_span(did);
                     let _ = write!(
                         impls,
-                        "{{\"self_ty\":{},\"trait\":{},\"unsafe\":{},\"file\":{},\"ln\":{},\"exp\":{},\"items\":[",
+                        "{{\"self_ty\":{},\"trait\":{},\"trait_h\":{},\"unsafe\":{},\"file\":{},\"ln\":{},\"exp\":{},\"items\":[",
                         js(&cx.ty_str(st)),
                         js(&tr),
+                        js(&trh),
                         uns,
                         js(&cx.file(sp)),
                         cx.line(sp),
@@ -1034,8 +1046,11 @@ impl Callbacks for Cb {
                         consts.push_str(&s);
                     }
                 }
-                DefKind::Fn => {
-                    let _ = &mut fns;
+                DefKind::Trait => {
+                    if !fns.is_empty() {
+                        fns.push(',');
+                    }
+                    let _ = write!(fns, "{{\"p\":{},\"h\":{}}}", js(&cx.path(did)), js(&cx.dh(did)));
                 }
                 _ => {}
             }
@@ -1054,6 +1069,7 @@ impl Callbacks for Cb {
             }
         }
         let _ = write!(o, ",\"impls\":[{}]", impls);
+        let _ = write!(o, ",\"traits\":[{}]", fns);
         let _ = write!(o, ",\"consts\":[{}]", consts);
         let _ = write!(o, ",\"nbodies\":{}}}\n", n);
         let fname = format!(
@@ -1082,8 +1098,9 @@ fn const_entry<'tcx>(cx: &Cx<'tcx>, did: DefId) -> Option<String> {
     let sp = tcx.def_span(did);
     let _ = write!(
         s,
-        "{{\"p\":{},\"ty\":{},\"tj\":{},\"file\":{},\"ln\":{}",
+        "{{\"p\":{},\"h\":{},\"ty\":{},\"tj\":{},\"file\":{},\"ln\":{}",
         js(&cx.path(did)),
+        js(&cx.dh(did)),
         js(&cx.ty_str(t)),
         cx.ty_json(t, 2),
         js(&cx.file(sp)),
